@@ -101,9 +101,8 @@ func GenConc(t *rapid.T) ConcCase {
 			if own > 9 {
 				own = 9
 			}
-			if op.Kind == "create" && op.Fault == "opendir" {
-				op.Fault = "create"
-			}
+			// (until session 3 a create whose new directory cannot be opened was turned into a plain
+			// failing create here; it is kept now: the fid is unbound by it, with requests queued on it)
 			if (op.Kind == "stat" || op.Kind == "wstat") && rapid.IntRange(0, 1).Draw(t, "toread") == 0 {
 				op = sessfs.Op{Kind: "read", Fid: op.Fid, Count: 64, Offset: 0, Fault: op.Fault}
 				if op.Fault != "" {
@@ -142,6 +141,22 @@ func GenConc(t *rapid.T) ConcCase {
 		ins(0, sessfs.Op{Kind: "walk", Fid: a, Newfid: b, Names: names})
 		ins(1, sessfs.Op{Kind: "walk", Fid: b, Newfid: a, Names: names})
 		ins(len(c.Threads)-1, sessfs.Op{Kind: "stat", Fid: a})
+	}
+	// (session 3) a create of a directory that then cannot be opened - the pinned code unbinds
+	// the fid and releases its entry - with other requests on the same fid in flight or queued:
+	// none of them may reach the released entry
+	if rapid.IntRange(0, 5).Draw(t, "faildircreate") == 0 {
+		a := rapid.SampledFrom([]uint32{0, 1}).Draw(t, "fdcfid")
+		ins := func(gi int, op sessfs.Op) {
+			at := rapid.IntRange(0, len(c.Threads[gi])).Draw(t, "fdcat")
+			ops := append([]sessfs.Op(nil), c.Threads[gi][:at]...)
+			ops = append(ops, op)
+			c.Threads[gi] = append(ops, c.Threads[gi][at:]...)
+		}
+		ins(0, sessfs.Op{Kind: "create", Fid: a, Name: "qd", Perm: p9p.DMDIR | 0755, Mode: 0, Fault: "opendir"})
+		for gi := 1; gi < len(c.Threads); gi++ {
+			ins(gi, sessfs.Op{Kind: rapid.SampledFrom([]string{"stat", "stat", "wstat", "walk"}).Draw(t, "fdcop"), Fid: a, Newfid: ownFid(gi, 9), Names: []string{"a"}})
+		}
 	}
 	c.Sched = rapid.SliceOfN(rapid.IntRange(0, 7), 1, 40).Draw(t, "sched")
 	c.Free = rapid.IntRange(0, 3).Draw(t, "free") == 0
@@ -398,10 +413,28 @@ func RunConc(c ConcCase) harn.Result {
 	}
 	<-alldone
 
+	corner := false
+	for _, r := range results {
+		if r.op.Kind == "create" && r.err != nil && r.op.Fault == "opendir" && r.op.Perm&p9p.DMDIR != 0 {
+			corner = true
+		}
+	}
 	// file system never saw overlapping calls on one entry / open file
 	for _, v := range fs.Violations() {
 		if strings.Contains(v, "overlapping") {
 			return harn.Fail("%s (gate release order: %s)", v, strings.Join(order, " "))
+		}
+		// (session 3) in no sequential order of the operations does the file system see a call on
+		// an entry the session has already released, or a second release (C13 holds for every
+		// sequence); seeing one here means the operations did not take effect atomically per fid
+		if corner && (strings.HasPrefix(v, "call clunk on handle") && strings.HasSuffix(v, "after its release by create") || strings.HasSuffix(v, "released twice (first by create, again by clunk)")) {
+			// the one unspecified corner (DESIGN §4 C08/C13, "lenient"): a directory was created
+			// but cannot be opened; the pinned code then clunks the fid's old entry although
+			// the successful Create has consumed it.  Nothing else may touch that entry.
+			continue
+		}
+		if strings.Contains(v, "after its release") || strings.Contains(v, "released twice") {
+			return harn.Fail("%s - no sequential order of the operations does that (gate release order: %s)", v, strings.Join(order, " "))
 		}
 	}
 	// no fid is left locked or half-bound once everything has returned
@@ -426,6 +459,7 @@ func RunConc(c ConcCase) harn.Result {
 		final[uint32(te.Fid)] = true
 	}
 	binds, unbinds := map[uint32]int{}, map[uint32]int{}
+	fateOpen := map[uint32]bool{}
 	for _, r := range results {
 		switch r.op.Kind {
 		case "attach":
@@ -439,6 +473,12 @@ func RunConc(c ConcCase) harn.Result {
 		case "clunk", "remove":
 			if r.err != p9p.ErrUnknownfid {
 				unbinds[r.op.Fid]++
+			}
+		case "create":
+			// a directory was created but could not be opened: what becomes of the fid is not
+			// stated by the property (the pinned code unbinds it); no conservation claim for it
+			if r.err != nil && r.op.Fault == "opendir" && r.op.Perm&p9p.DMDIR != 0 {
+				fateOpen[r.op.Fid] = true
 			}
 		}
 	}
@@ -456,6 +496,9 @@ func RunConc(c ConcCase) harn.Result {
 		fidsSeen[f] = true
 	}
 	for f := range fidsSeen {
+		if fateOpen[f] {
+			continue
+		}
 		n := binds[f] - unbinds[f]
 		if initial[f] {
 			n++
